@@ -17,7 +17,7 @@ from wbgen import a1, col_letters, sheet_ref
 
 NAME = 'execsim'
 # probes that count as injected disturbances (reported under faults_fired in the evidence)
-FAULT_PROBES = ('env_calendar_firstweekday_changed', 'env_decimal_context_changed', 'env_warnings_filter_changed', 'evaluation_failed_mid_history', 'get_sheet_aborted_by_failing_cell', 'clock_step')
+FAULT_PROBES = ('env_calendar_firstweekday_changed', 'env_decimal_context_changed', 'env_warnings_filter_changed', 'env_root_logger_level_changed', 'evaluation_failed_mid_history', 'get_sheet_aborted_by_failing_cell', 'clock_step')
 NEEDS_REF = True
 WB_PATH = '/simfs/w.xlsx'
 FROZEN_NS = 1_718_000_000 * 10**9   # 2024-06-10T06:13:20Z — the frozen instant of execsim runs
@@ -168,6 +168,10 @@ def _templates():
     t('index', lambda g: (lambda a: '=INDEX(%s,%d,%d)' % (a[0], g.r.randint(1, a[2]), g.r.randint(1, a[1])))(g.rect()), 2)
     t('match', lambda g: '=MATCH(%s,%s,0)' % (g.cell(), g.colrange()))
     t('round', lambda g: '=ROUND(%s/3,2)' % g.cell())
+    t('roundup', lambda g: '=ROUNDUP(%s/7,%d)' % (g.cell(), g.r.choice([0, 1, 2])))
+    t('rounddown', lambda g: '=ROUNDDOWN(%s*1.0725,%d)' % (g.cell(), g.r.choice([0, 1, 2])))
+    t('round_lit', lambda g: '=ROUND(%s*%s,1)' % (g.cell(), g.r.choice(['2.34', '2.36', '0.125', '3.14159265358979'])))
+    t('fraclit', lambda g: '=%s+%s' % (g.cell(), g.r.choice(['3.14159265358979', '1.0725', '100.125', '2.5e-3', '0.1'])))
     t('left', lambda g: '=LEFT(%s,1)' % g.cell())
     t('mid', lambda g: '=MID(%s,2,2)' % g.cell())
     t('year', lambda g: '=YEAR(%s)' % g.cell())
@@ -1163,6 +1167,7 @@ def ref_handle(req):
                 for cc in range(cols):
                     # a pristine executor over a pristine CLASS per coordinate: no query history at all, not even in
                     # class-level or module-level state of the generated code
+                    core.reset_interpreter_state(req.get('env'))       # ... nor in interpreter-wide settings (decimal context, ...)
                     ns = {}
                     exec(code, ns)
                     K = ns['ExcelInPython']
